@@ -124,8 +124,17 @@ def run(prop, level, rule, plans, tags, keys=("plain",), modes=("compiled",), ha
                     for ei in sorted(set(dig[ref]) | set(dig[c])):
                         if dig[ref].get(ei) != dig[c].get(ei):
                             lab = g["edges"][ei][1]
+                            a_, b_ = dig[ref].get(ei) or ":", dig[c].get(ei) or ":"
+                            zero_only = a_.split(":")[1] == b_.split(":")[1] and ref[0] != c[0]
+                            sid, pth = g["edges"][ei][0], []
+                            while sid in g["parent"]:
+                                pth.append(g["edges"][g["parent"][sid]][1])
+                                sid = g["edges"][g["parent"][sid]][0]
                             v.violation(f"[Expr.tla keys={kk}] observations (outcome, value, printed form, dependencies, contents, dump()) after {lab} differ between "
-                                        f"configuration {ref} and {c}", {"engine": "expr_replay", "plan": plan, "configs": [list(ref), list(c)], "label": lab, "tags": ["C20"]})
+                                        f"configuration {ref} and {c}" + (" only in the sign of a zero" if zero_only else ""),
+                                        {"engine": "expr_replay", "plan": plan, "configs": [list(ref), list(c)], "path": pth[::-1] + [lab],
+                                         "env": g["states"][sid]["node"][2], "tags": ["C20"]},
+                                        known_key="cython-float-int-signed-zero" if zero_only else None)
     v.add(stats["edges"])
     cov = dict(states=tot_s, transitions=tot_t, traces_validated_against_impl=stats["edges"], distinct_nontrivial=stats["nontrivial"],
                exhaustive=all(not p.get("simulate") for p in plans))
